@@ -34,9 +34,13 @@ KINDS = ["vec", "arrayvec", "slice", "sliceref"]
 
 # ----------------------------------------------------------------------------- helpers
 
-def _export_cfg(ctx, tier, kind):
-    """Derive the export config (one backing store) from the model-checking config."""
-    src = open(os.path.join(SPECDIR, "MC_%s.cfg" % tier)).read()
+WALKS = {"quick": ["MC_quick"], "thorough": ["Walk_deep", "Walk_wide"]}
+CRASH_SIGNALS = (-4, -6, -7, -8, -11, 132, 134, 135, 136, 139)   # SIGILL, SIGABRT, SIGBUS, SIGFPE, SIGSEGV
+
+
+def _export_cfg(ctx, name, kind):
+    """Derive the export config (one backing store) from a model-checking config."""
+    src = open(os.path.join(SPECDIR, "%s.cfg" % name)).read()
     out = []
     for line in src.splitlines():
         if line.strip().startswith("MCKinds"):
@@ -46,13 +50,13 @@ def _export_cfg(ctx, tier, kind):
         else:
             out.append(line)
     out.append("ACTION_CONSTRAINT Export")
-    p = os.path.join(ctx.workdir, "Exp_%s_%s.cfg" % (tier, kind))
+    p = os.path.join(ctx.workdir, "Exp_%s_%s.cfg" % (name, kind))
     open(p, "w").write("\n".join(out) + "\n")
     return p
 
 
-def _max_ops(tier):
-    src = open(os.path.join(SPECDIR, "MC_%s.cfg" % tier)).read()
+def _max_ops(name):
+    src = open(os.path.join(SPECDIR, "%s.cfg" % name)).read()
     return int(re.search(r"MaxOps\s*=\s*(\d+)", src).group(1))
 
 
@@ -101,14 +105,15 @@ def _key_of_event(ev):
 
 # ----------------------------------------------------------------------------- direction A
 
-def _direction_a(ctx, bins, tier):
-    depth = _max_ops(tier)
+def _direction_a(ctx, bins, tier, name):
+    depth = _max_ops(name)
     results = {}
 
     def work(kind):
-        cfg = _export_cfg(ctx, tier, kind)
-        cover = os.path.join(ctx.workdir, "cover_%s.ndjson" % kind)
-        cmd = [os.path.join(bins, "vh-buffer"), "graph", "--depth", str(depth), "--cover", cover]
+        cfg = _export_cfg(ctx, name, kind)
+        cover = os.path.join(ctx.workdir, "cover_%s_%s.ndjson" % (name, kind))
+        cmd = [os.path.join(bins, "vh-buffer"), "graph", "--depth", str(depth), "--cover", cover,
+               "--threads", "2", "--max-paths", "40000000"]
         try:
             results[kind] = core.tlc_pipe("MC_Buffer.tla", cfg, cmd, cwd=SPECDIR,
                                           timeout=240 if tier == "quick" else 2400)
@@ -128,7 +133,7 @@ def _direction_a(ctx, bins, tier):
             raise r
         tres, rc, out = r
         if rc != 0:
-            if rc < 0 or rc >= 128:
+            if rc in CRASH_SIGNALS:
                 ctx.report("crash:graph:%s" % kind,
                            "the replay process died with code %s while executing TLC-generated sequences on the %s store "
                            "(memory corruption or abort inside the library)" % (rc, kind), {"kind": kind, "rc": rc})
@@ -150,7 +155,7 @@ def _direction_a(ctx, bins, tier):
         tot["nontrivial"] += s["nontrivial_paths"]
         tot["covered"] += s["edges_covered"]
         tot["det_edges"] += s["det_edges"]
-        ctx.add_run("graph walk %s" % kind, states=s["states"], edges=s["edges"], paths=s["paths"],
+        ctx.add_run("graph walk %s %s" % (name, kind), states=s["states"], edges=s["edges"], paths=s["paths"],
                     steps=s["steps"], mismatches=s["mismatch_count"], drift=s["drift_count"],
                     edges_covered=s["edges_covered"], det_edges=s["det_edges"])
         for smp in s.get("samples", [])[:1]:
@@ -168,8 +173,8 @@ def _direction_a(ctx, bins, tier):
     ctx.coverage["evaluations"] += tot["paths"]
     ctx.coverage["distinct_nontrivial"] += tot["nontrivial"]
     ctx.coverage["transitions_replayed_on_impl"] = ctx.coverage.get("transitions_replayed_on_impl", 0) + tot["steps"]
-    ctx.add_run("direction A total", wall_s=round(time.time() - t0, 1), **tot)
-    core.log("[C19] direction A: %s in %.0fs" % (tot, time.time() - t0))
+    ctx.add_run("direction A total " + name, wall_s=round(time.time() - t0, 1), **tot)
+    core.log("[C19] direction A %s: %s in %.0fs" % (name, tot, time.time() - t0))
     return tot
 
 
@@ -192,7 +197,7 @@ def _direction_b(ctx, bins, tier):
         path = os.path.join(ctx.workdir, "trace_%d.ndjson" % i)
         rc, events = _drive(bins, ctx.seed * 100 + i, runs, maxcap, ops, path)
         if rc != 0:
-            if rc < 0 or rc >= 128:
+            if rc in CRASH_SIGNALS:
                 ctx.report("crash:drive", "the random driver died with code %s (memory corruption or abort inside the "
                            "library)" % rc, {"drive": [ctx.seed * 100 + i, runs, maxcap, ops]})
                 continue
@@ -248,11 +253,12 @@ def _miri(ctx, budget_s=420):
     report on these sequences is a violation of the memory-safety sentence of C19."""
     hd = core._harness_dir()
     plans = []
-    for kind in KINDS:
-        p = os.path.join(ctx.workdir, "cover_%s.ndjson" % kind)
-        if os.path.exists(p):
-            lines = [l for l in open(p).read().splitlines() if l.strip()]
-            plans.append(lines)
+    for name in WALKS[ctx.tier]:
+        for kind in KINDS:
+            p = os.path.join(ctx.workdir, "cover_%s_%s.ndjson" % (name, kind))
+            if os.path.exists(p):
+                lines = [l for l in open(p).read().splitlines() if l.strip()]
+                plans.append(lines)
     if not plans:
         ctx.assumptions.append("Miri step skipped: no cover plans")
         return
@@ -348,7 +354,8 @@ def run(ctx):
         raise core.ToolError("vacuous model-checking config: actions never taken: %s" % zero)
     ctx.coverage["exhaustive"] = True
     # 2. direction A
-    _direction_a(ctx, bins, tier)
+    for name in WALKS[tier]:
+        _direction_a(ctx, bins, tier, name)
     # 3. direction B
     _direction_b(ctx, bins, tier)
     ctx.assumptions += [
@@ -378,8 +385,10 @@ def replay(ctx, path):
     bins = core.build_harness(["vh-buffer"])
     rc, out = core.run_harness([os.path.join(bins, "vh-buffer"), "run"], stdin=json.dumps(plan) + "\n", timeout=120)
     if rc != 0:
-        ctx.report(obj.get("key", "crash:replay"), "replay process died with code %s" % rc, rp)
-        return
+        if rc in CRASH_SIGNALS:
+            ctx.report(obj.get("key", "crash:replay"), "replay process died with code %s" % rc, rp)
+            return
+        raise core.ToolError("vh-buffer run exited with %s" % rc)
     tp = os.path.join(ctx.workdir, "replay.ndjson")
     open(tp, "w").write(out)
     events = [json.loads(l) for l in out.splitlines() if l.strip()]
